@@ -406,6 +406,48 @@ def leg_unicode_attribute_names(ns, res, spec):
             node.close()
 
 
+def leg_unnest_compound_elements(ns, res, spec):
+    """UNNEST over elements that are themselves tuples / lists (pairs from zip, re.findall groups, dict items): one output FIELD per element - the header
+    (from the table's names or from an alias) has exactly as many names as every output record has fields."""
+    from ..js import bridge
+    rng = random.Random(spec['seed'] * 131 + 7)
+    node = bridge.Node.start()
+    PYQ = [('select a.name, UNNEST([(a1, 1), (a2, 2)])', lambda r: [[r[0], (r[0], 1)], [r[0], (r[1], 2)]], ['name', 'col2']),
+           ('select UNNEST(list(zip([a1, a2], [1, 2]))) as kv, a1', lambda r: [[(r[0], 1), r[0]], [(r[1], 2), r[0]]], ['kv', 'name']),
+           ('select a1, UNNEST(re.findall("(.)(.)", a2)) as pair', lambda r: [[r[0], m] for m in __import__('re').findall('(.)(.)', r[1])], ['name', 'pair']),
+           ('select a.name as n, UNNEST(sorted({a1: 1, a2: 2}.items()))', lambda r: [[r[0], it] for it in sorted({r[0]: 1, r[1]: 2}.items())], ['n', 'col2']),
+           ('select UNNEST([[a1, a2], [a2]]), a.props', lambda r: [[[r[0], r[1]], r[1]], [[r[1]], r[1]]], ['col1', 'props'])]
+    JSQ = [('select a.name, UNNEST([[a1, 1], [a2, 2]])', lambda r: [[r[0], [r[0], 1]], [r[0], [r[1], 2]]], ['name', 'col2']),
+           ('select UNNEST([[a1, a2], [a2]]) as kv, a1', lambda r: [[[r[0], r[1]], r[0]], [[r[1]], r[0]]], ['kv', 'name']),
+           ('select a.name as n, UNNEST(Object.entries({k: a1, l: a2}))', lambda r: [[r[0], ['k', r[0]]], [r[0], ['l', r[1]]]], ['n', 'col2'])]
+    try:
+        for n in range(spec['n']):
+            A = [[rng.choice(['ann', 'bob', 'cy']), rng.choice(['k1v1', 'abcd', 'xy', 'pqrs'])] for _ in range(rng.randrange(1, 4))]
+            names = ['name', 'props']
+            q, f, hdr = PYQ[n % len(PYQ)]
+            r = boundary.run_query_table(ns, q, [list(x) for x in A], None, list(names), None, True)
+            exp = [row for rec in A for row in f(rec)]
+            res.evaluations += 1
+            res.count('unnest_compound_element_runs:py')
+            res.nontrivial('unnest-compound', 'py', q, repr(A))
+            got = [[tuple(c) if isinstance(c, tuple) else c for c in row] for row in r['rows']]
+            if r['error'] is not None or got != exp or list(r['header'] or []) != hdr or any(len(row) != len(hdr) for row in r['rows']):
+                res.violation('py:unnest-compound-element-width-or-header', '[py] %s over %r -> header %r rows %r (error %s) ; expected header %r rows %r' % (q, A, r['header'], r['rows'], r['error'] and r['error_msg'], hdr, exp),
+                              {'leg': 'unnest-compound', 'engine': 'py', 'query_text': q, 'A': A})
+            if node is not None:
+                q, f, hdr = JSQ[n % len(JSQ)]
+                o = node.call({'op': 'query_table', 'query': q, 'input': [list(x) for x in A], 'join': None, 'input_cols': list(names), 'join_cols': None})
+                exp = [row for rec in A for row in f(rec)]
+                res.evaluations += 1
+                res.count('unnest_compound_element_runs:js')
+                if o['error'] is not None or o['out'] != exp or list(o['header'] or []) != hdr:
+                    res.violation('js:unnest-compound-element-width-or-header', '[js] %s over %r -> header %r rows %r (error %r) ; expected header %r rows %r' % (q, A, o['header'], o['out'], o['error'], hdr, exp),
+                                  {'leg': 'unnest-compound', 'engine': 'js', 'query_text': q, 'A': A})
+    finally:
+        if node is not None:
+            node.close()
+
+
 def plan(tier, seed):
     k = NSHARDS[tier]
     return [{'k': k, 'i': i, 'n': CASES[tier] // k} for i in range(k)] + [{'kind': 'wrong-length-names', 'n': 300 if tier == 'quick' else 3000}, {'kind': 'unicode-attr', 'n': 200 if tier == 'quick' else 2000}]
@@ -416,6 +458,7 @@ def run_shard(spec, res):
     if spec.get('kind') == 'wrong-length-names':
         return leg_wrong_length_names(ns, res, spec)
     if spec.get('kind') == 'unicode-attr':
+        leg_unnest_compound_elements(ns, res, spec)
         return leg_unicode_attribute_names(ns, res, spec)
     rng = random.Random(spec['seed'] * 67867967 + spec['i'])
     qt, mode = contracts.armed_query_table(ns)
@@ -465,7 +508,7 @@ def summarize(tier, seed, m):
     shapes = sorted(k[6:] for k in m['counters'] if k.startswith('shape:'))
     return {
         'rule': 'select lists of 1-4 items over fields in five spellings, stars, NR / NF / aNR / bNR, calls of user functions with commas and brackets inside arguments and string literals (f("x, y", [a1, 2, [1]]), g(...)[0]), literals that look like syntax, typed expressions, UNNEST, aliases written as / AS; families rotating over plain, quotients (a slash right after a closing bracket and another one in a later item), DISTINCT, DISTINCT COUNT, TOP, GROUP BY with aggregates, * EXCEPT, UPDATE, JOIN, JOIN + DISTINCT COUNT; rectangular tables; header / no header alternating. Each case: rbql.query with probes vs reference header names, icontract-armed query_table, CSV writer (every case) and query_pandas_dataframe (every 4th) which enforce the width; every 4th headed case also through SqliteRecordIterator / SqliteDbRegistry over a table holding the same data (plain, with a GENERATED column VIRTUAL or STORED, through a VIEW) into the CSV writer; JS leg. distinct_nontrivial = distinct (query, header names) that produced an output header.',
-        'required': ['unicode_attribute_name_runs:py/list', 'unicode_attribute_name_runs:py/csv', 'unicode_attribute_name_runs:js/list', 'py_cases', 'headers_observed', 'contract_evaluations', 'csv_writer_runs', 'csv_reader_runs', 'csv_reader_runs_last_name_empty', 'wrong_length_names_runs', 'pandas_runs', 'sqlite_runs:plain', 'sqlite_runs:generated', 'sqlite_runs:view', 'js_cases'],
+        'required': ['unnest_compound_element_runs:py', 'unnest_compound_element_runs:js', 'unicode_attribute_name_runs:py/list', 'unicode_attribute_name_runs:py/csv', 'unicode_attribute_name_runs:js/list', 'py_cases', 'headers_observed', 'contract_evaluations', 'csv_writer_runs', 'csv_reader_runs', 'csv_reader_runs_last_name_empty', 'wrong_length_names_runs', 'pandas_runs', 'sqlite_runs:plain', 'sqlite_runs:generated', 'sqlite_runs:view', 'js_cases'],
         'extra': {'shapes_seen': shapes},
         'assumptions': ['rv/model/refsem.py header_names states the documented naming rule (DISTINCT COUNT: the count column is col1 and the following positional names count it)', 'parenthesised fields like (a1), mixed-case As, variable-width lists are outside the rule and not generated'],
     }
